@@ -2,8 +2,8 @@
 import io
 from vfam import *  # noqa
 
-THEOREMS = ["C01_constructor", "C01_fill_contents", "C01_fill_length", "C01_any_representation", "C01_get_depth", "C01_decode_route", "C01_decode_any"]
-PARTIAL = ["proved for the constructor route, the decode route (C01_decode_route / C01_decode_any, from the decoder theorems) and every CRep representation (set / append route: C04); the object-import and default-then-mutated routes are tied by the correspondence (root_from_obj, root_default_mutated)"]
+THEOREMS = ["C01_constructor", "C01_fill_contents", "C01_fill_length", "C01_any_representation", "C01_get_depth", "C01_decode_route", "C01_decode_any", "C01_any_repr_root"]
+PARTIAL = ["proved for the constructor route, the decode route (C01_decode_route / C01_decode_any), and every representation of a value (C01_any_repr_root; mutations preserve representation: C04); the object-import route and mutations not yet covered by C04 (pop, packed, bits, union change) are tied by the correspondence (root_from_obj, root_default_mutated)"]
 COQ_IMPORTS = ["RM.Types", "RMR.RunV"]
 COQ_FN = "RunV.run_c01"
 COQ_CASE_TY = "(ty * val)"
